@@ -16,9 +16,11 @@ import (
 	"go.opentelemetry.io/collector/component/componenttest"
 	"go.opentelemetry.io/collector/connector"
 	"go.opentelemetry.io/collector/exporter"
+	"go.opentelemetry.io/collector/extension"
 	"go.opentelemetry.io/collector/pipeline"
 	"go.opentelemetry.io/collector/processor"
 	"go.opentelemetry.io/collector/receiver"
+	"go.opentelemetry.io/collector/service"
 	"go.opentelemetry.io/collector/service/internal/builders"
 	"go.opentelemetry.io/collector/service/internal/graph"
 	"go.opentelemetry.io/collector/service/internal/status"
@@ -141,6 +143,10 @@ type Obs09 struct {
 	Arrivals  []Arrival `json:"arrivals"`
 	Injected  []string  `json:"injected"` // tags injected: "<receiver>|<signal>|<k>"
 	RouteEach []string  `json:"route_each"`
+	// only when graph.Build failed: the same configuration through the public service.New
+	SvcNewErr *string `json:"svc_new_err"`
+	SvcStarts int     `json:"svc_starts"`
+	SvcTried  bool    `json:"svc_tried"`
 }
 
 func sptr(s string) *string { return &s }
@@ -190,6 +196,32 @@ func runOne09(i int, cfg *Config, seed int64) (obs Obs09) {
 	})
 	if err != nil {
 		obs.BuildErr = sptr(err.Error())
+		// the same configuration must also be refused by the public service.New, with nothing started
+		obs.SvcTried = true
+		w2 := newWorld()
+		wi2 := wire(w2, cfg, rng)
+		srv, nerr := service.New(ctx, service.Settings{
+			BuildInfo:        component.NewDefaultBuildInfo(),
+			ReceiversConfigs: wi2.rcvCfg, ReceiversFactories: wi2.rcvFac,
+			ProcessorsConfigs: wi2.procCfg, ProcessorsFactories: wi2.procFac,
+			ExportersConfigs: wi2.expCfg, ExportersFactories: wi2.expFac,
+			ConnectorsConfigs: wi2.connCfg, ConnectorsFactories: wi2.connFac,
+			ExtensionsConfigs:   map[component.ID]component.Config{},
+			ExtensionsFactories: map[component.Type]extension.Factory{},
+			AsyncErrorChannel:   make(chan error, 4),
+		}, quietServiceConfig(nil, wi2.pipes))
+		if nerr != nil {
+			obs.SvcNewErr = sptr(nerr.Error())
+		} else {
+			_ = srv.Shutdown(ctx)
+		}
+		w2.mu.Lock()
+		for _, e := range w2.events {
+			if e.Ev == "start" {
+				obs.SvcStarts++
+			}
+		}
+		w2.mu.Unlock()
 		return obs
 	}
 	rep := status.NewReporter(func(*componentstatus.InstanceID, *componentstatus.Event) {}, func(error) {})
